@@ -387,6 +387,13 @@ def r16_5(ctx, prog, crate):
         names_ = [c.callee for c in b.live_calls()]
         ctx.check(any(n.endswith("::min") for n in names_) and not any(n.endswith("::max") for n in names_), "R16.5",
                   ["location", "earliest-child"], "a group's location is not the minimum of its children's (%s)" % names_, b.where(0))
+        # ... of its children's *location()*, recursively: a plain module two levels above its benchmarks still has a position
+        rec = any(a["k"] == "const" and norm(a["c"].get("fn") or a["c"]["d"]).endswith("EntryTree::location") for c in b.live_calls() for a in c.args) or \
+            any(c.callee == "entry::tree::EntryTree::location" for x in prog.children(b) if x.kind == "Closure" for c in x.live_calls()) or \
+            any(c.callee == "entry::tree::EntryTree::location" for c in b.live_calls())
+        kids = any(c.callee == "entry::tree::EntryTree::children" for c in b.live_calls())
+        ctx.check(rec and kids, "R16.5", ["location", "earliest-descendant"],
+                  "the location of a node without its own position is not computed from the location() of each of its children (a module that only contains modules would have none and sort before everything)", b.where(0))
 
 
 PANIC_EXCEPTIONS = {
